@@ -6,13 +6,17 @@ sys.path.insert(0, VERIF)
 
 HOOK_GUARD = "SIMUCELL3D_VERIF"
 
-# property -> (category, technique, level text, level note, design ref)
-CLAIMED = {
-    "C05": ("exploration", "runtime monitor: differential oracle (own long-double closest-point) over seeded per-Voronoi-region inputs; ASan/UBSan on the same workload",
-            "Held on every one of the generated (point, triangle) pairs of the run: 4e5 (quick) / 5e7 (thorough) cases covering all 7 Voronoi regions, region boundaries, both sides, aspect ratios to 1e3, scales 1e-7..1e2, offsets to 1e3 diameters, each also re-evaluated after a joint random rigid motion. Exploration is the right level: the kernel is a pure function of 12 doubles, an independent oracle decides each evaluation exactly, and sampling per region reaches every branch.",
-            "Trusts the harness' own long-double closest-point routine and the stated forward-error tolerance; inputs outside the generated ranges (aspect > 1e3, degenerate triangles) are not covered.",
-            "DESIGN.md section 3, C05"),
-}
+def load_claimed():
+    import importlib, glob
+    sys.path.insert(0, os.path.join(VERIF, "tools"))
+    out = {}
+    for p in sorted(glob.glob(os.path.join(VERIF, "checks", "C*.py"))):
+        mod = importlib.import_module("checks." + os.path.basename(p)[:-3])
+        out[mod.ID] = mod.MANIFEST
+    return out
+
+
+CLAIMED = load_claimed()
 
 NOT_YET = {}
 
